@@ -1108,6 +1108,18 @@ func newFqEnv(u *vqUniverse, w *vqWorker, init *fqObs, seed int64) (*fqEnv, erro
 		}
 		w.fdbDirty = false
 	}
+	// initial database state class "placeholder entry": written through the
+	// real exported API (PutFilters with a nil Filter)
+	for b, v := range init.Db {
+		if v == 2 && b <= init.Btip {
+			w.fdbDirty = true
+			err := w.fs.PutFilters(&filterdb.FilterData{Filter: nil, BlockHash: &u.hashes[b],
+				Type: filterdb.RegularFilter})
+			if err != nil {
+				return nil, err
+			}
+		}
+	}
 	e.cs = &ChainService{
 		FilterDB:         &vqFilterDB{FilterDatabase: w.fs, s: e.sched, dirty: &w.fdbDirty},
 		BlockHeaders:     &vqHeaders{BlockHeaderStore: st.b, s: e.sched, gate: true},
@@ -1282,6 +1294,8 @@ func (e *fqEnv) observe() (fqObs, error) {
 				switch {
 				case id < 0:
 					o.Dx++
+				case len(v) == 0:
+					o.Db[id] = 2 // placeholder: block known, no filter stored
 				case bytes.Equal(v, e.u.fbytes[id]):
 					o.Db[id] = 1
 				default:
@@ -1878,7 +1892,7 @@ type bqEnv struct {
 
 func bqPeer(p int) string { return fmt.Sprintf("10.0.%d.%d:18444", p, p) }
 
-func newBqEnv(u *vqUniverse, w *vqWorker, init *bqObs, seed int64) (*bqEnv, error) {
+func newBqEnv(u *vqUniverse, w *vqWorker, init *bqObs, seed int64, pathID int) (*bqEnv, error) {
 	nb, np := len(init.Cache), len(init.Banned)
 	st, err := u.storesFor(nb, nb)
 	if err != nil {
@@ -1904,8 +1918,27 @@ func newBqEnv(u *vqUniverse, w *vqWorker, init *bqObs, seed int64) (*bqEnv, erro
 		}
 		w.banDirty = false
 	}
+	// "not banned" has two concrete forms: no record, and a record that has
+	// expired but was not looked up (and thereby purged) since.  Every second
+	// path starts with expired records for all peers, planted through the
+	// real BanIPNet.  Status is then not called before the first ban (it
+	// would purge them); the projection is all zeros until then by
+	// construction (the store was just reset).
+	e.bobs = vqFill(np, 0)
+	if pathID%2 == 0 {
+		for p := 1; p <= np; p++ {
+			ipn, err := banman.ParseIPNet(bqPeer(p), nil)
+			if err != nil {
+				return nil, err
+			}
+			if err := w.ban.BanIPNet(ipn, banman.InvalidBlock, -time.Hour); err != nil {
+				return nil, err
+			}
+		}
+		w.banDirty = true
+	}
 	e.ban = &vqBanStore{Store: w.ban, dirty: &e.dirty}
-	e.dirty = true
+	e.dirty = false
 	e.cs = &ChainService{
 		BlockHeaders: &vqHeaders{BlockHeaderStore: st.b, s: e.sched},
 		FilterCache:  lru.NewCache[FilterCacheKey, *CacheableFilter](DefaultFilterCacheSize),
@@ -2299,7 +2332,7 @@ func bqRunPath(u *vqUniverse, w *vqWorker, p bqPathIn, seed int64) (out bqPathOu
 		out.Error = "path without init_obs"
 		return
 	}
-	e, err := newBqEnv(u, w, p.InitObs, seed*1000003+int64(p.ID))
+	e, err := newBqEnv(u, w, p.InitObs, seed*1000003+int64(p.ID), p.ID)
 	if err != nil {
 		out.Error = "env: " + err.Error()
 		out.InitObs = *p.InitObs
